@@ -112,9 +112,13 @@ func loadOnce(repo string, overlay map[string][]byte) ([]*packages.Package, *tok
 
 // Load loads /repo. If fixtures is non-empty, the overlay is tried first; if a fixture file does
 // not type-check against the current tree (stale fixture), the load is repeated without overlay.
+// curProg: the program of the current run (for helper functions that need callers but take no *Prog)
+var curProg *Prog
+
 func Load(repo, fixDir string) (*Prog, error) {
 	t0 := time.Now()
 	p := &Prog{RepoDir: repo}
+	curProg = p
 	var overlay map[string][]byte
 	if fixDir != "" {
 		overlay = fixtureOverlay(repo, fixDir)
